@@ -21,6 +21,8 @@ def main():
 
     logging.disable(logging.CRITICAL)
     prop = a.prop.upper()
+    # second solver (cvc5) re-checks every N-th obligation that z3 proves; see symlift/core.py Engine._cross_check
+    os.environ.setdefault("VERIF_CROSS_EVERY", "200" if a.tier == "quick" else "50")
     t0 = time.time()
     os.environ.setdefault("HOME_ORIG", os.environ.get("HOME", ""))
     mod = importlib.import_module(f"vf.props.{prop.lower()}")
